@@ -19,6 +19,7 @@
     layer 0 (`layeredOperations_unvisited`).
 -/
 import OHVerif.Lemmas.Adjacency
+import OHVerif.Lemmas.VecBackend
 
 namespace OH.C15
 open OH OH.Graph OH.Kahn Relation
@@ -102,6 +103,13 @@ example : (⟨⟨[], 5⟩, ⟨[], 5⟩,
     ⟨⟨⟨[1, 1, 1, 0, 1], 5⟩, ⟨[0, 1, 1, 3], 5⟩⟩, ⟨⟨[1, 1, 1, 1, 0], 5⟩, ⟨[1, 0, 2, 3], 5⟩⟩,
       ["a", "b", "c", "d", "e"], ["f", "g", "h", "i", "j"]⟩⟩ : OHG String String).wf = true := by
   decide
+
+/-- the theorems apply to the Vec backend on that diagram -/
+example : ∃ order unv, layer vecBackend (⟨⟨[], 5⟩, ⟨[], 5⟩,
+    ⟨⟨⟨[1, 1, 1, 0, 1], 5⟩, ⟨[0, 1, 1, 3], 5⟩⟩, ⟨⟨[1, 1, 1, 1, 0], 5⟩, ⟨[1, 0, 2, 3], 5⟩⟩,
+      ["a", "b", "c", "d", "e"], ["f", "g", "h", "i", "j"]⟩⟩ : OHG String String) =
+      .ok (order, unv) ∧ order.target = 5 ∧ order.table.length = 5 ∧ order.WF ∧ unv.length = 5 :=
+  layer_ok vecBackend vecBackend_lawful _ (by decide)
 
 section corollaries
 
